@@ -117,6 +117,9 @@ type Config struct {
 	ManualStart bool
 	// RealTime: the run is not inside a synctest bubble.
 	RealTime bool
+	// NoRecv: the application of that endpoint (client, server) never calls
+	// Recv.
+	NoRecv [2]bool
 	// RecvForever: receivers keep calling Recv until it fails.
 	RecvForever bool
 	// CloseScript, if set, replaces the default closing of both ends.
@@ -286,11 +289,33 @@ func b2i(b bool) int {
 	return 0
 }
 
-// Close calls Close on endpoint ep and records call and return.
+// Close calls Close on endpoint ep and records call and return.  A Close
+// that does not return within the patience is recorded as "closeStuck"; the
+// harness then drains the endpoint's Recv so that the run can end.
 func (r *Run) Close(ep string, tag string) {
 	r.Rec.Emit("closeCall", "ep", ep, "tag", tag)
 	t0 := time.Now()
-	err := r.conns[ep].Close()
+	conn := r.conns[ep]
+	done := make(chan error, 1)
+	go func() { done <- conn.Close() }()
+	patience := 30 * time.Second
+	if r.Cfg.RealTime {
+		patience = 4 * time.Second
+	}
+	var err error
+	select {
+	case err = <-done:
+	case <-time.After(patience):
+		r.Rec.Emit("closeStuck", "ep", ep, "tag", tag)
+		go func() {
+			for {
+				if _, e := conn.Recv(); e != nil {
+					return
+				}
+			}
+		}()
+		err = <-done
+	}
 	r.Rec.Emit("closeRet", "ep", ep, "tag", tag, "err", errStr(err),
 		"w", int(time.Since(t0)/time.Millisecond))
 }
